@@ -29,13 +29,13 @@ var goOpFor = map[string]token.Token{
 }
 
 func checkC06(r *Run) {
-	r.Rule("R1", "precedence table: strict chain && || < == != ~= < comparisons < + - < * / < prefix < call,index; equal level inside a group; fallback level below every operator", 15)
-	r.Rule("R2", "infix registry and precedence table have the same key set", 15)
-	r.Rule("R3", "left associativity: Pratt loop continues on strict 'precedence < peekPrecedence()'; the infix parser recurses with the operator's own level read before advancing; cur/peek lookups use the right token field", 4)
-	r.Rule("R4", "operator tables: each case label returns the Go expression with the same operator on (left,right) in parameter order; '/' is dominated by a zero-divisor error return; fall-through is an error", 30)
-	r.Rule("R5", "short circuit: the right operand is evaluated only after '&&' with a falsy left returned false and '||' with a truthy left returned true", 2)
-	r.Rule("R6", "lexer literal = token constant = evaluator label for every operator token", 13)
-	r.Rule("R7", "every arm of the inside-tag token switch leaves the cursor exactly behind its token", 25)
+	r.Rule("R1", "precedence table: strict chain && || < == != ~= < comparisons < + - < * / < prefix < call,index; equal level inside a group; fallback level below every operator", 8)
+	r.Rule("R2", "infix registry and precedence table have the same key set", 8)
+	r.Rule("R3", "left associativity: Pratt loop continues on strict 'precedence < peekPrecedence()'; the infix parser recurses with the operator's own level read before advancing; cur/peek lookups use the right token field", 1)
+	r.Rule("R4", "operator tables: each case label returns the Go expression with the same operator on (left,right) in parameter order; '/' is dominated by a zero-divisor error return; fall-through is an error", 12)
+	r.Rule("R5", "short circuit: the right operand is evaluated only after '&&' with a falsy left returned false and '||' with a truthy left returned true", 1)
+	r.Rule("R6", "lexer literal = token constant = evaluator label for every operator token", 6)
+	r.Rule("R7", "every arm of the inside-tag token switch leaves the cursor exactly behind its token", 10)
 
 	r.Rule("R8", "'!' negates the uniform truthiness predicate of its operand", 1)
 	bangArmRule(r, "R8")
